@@ -192,10 +192,8 @@ pub fn observe_number(n: &Number) -> MVal {
 }
 
 pub fn observe_grid(g: &Grid) -> MGrid {
-    let mut meta = g.meta.as_ref().map(observe_dict).unwrap_or_default();
-    if g.ver != GRID_FORMAT_VERSION {
-        meta.insert("\u{0}ver".to_string(), MVal::Str(g.ver.clone()));
-    }
+    // the `ver` field is the version of the text the grid was read from, not part of the value
+    let meta = g.meta.as_ref().map(observe_dict).unwrap_or_default();
     MGrid {
         meta,
         cols: g
